@@ -81,6 +81,77 @@ def oracle_centres(case, lon, lat):
 SNAP = 1e-8  # the library snaps a derived position to the pole when 1 - |z| < 1e-8 (a cap of ~1.4e-4 rad)
 
 
+def off_centres(case, lon, lat):
+    """Face centres a source may legitimately ship that are NOT the vertex centroid (circumcentres, Voronoi
+    generators, box mid points): a weighted mean of the corner unit vectors, strictly inside the convex face."""
+    from . import lattice
+
+    out = []
+    for f in case["faces"]:
+        us = [lattice.unit(case["nodes"][k]) for k in f] if "nodes" in case else [unit_of_lonlat(lon[k], lat[k]) for k in f]
+        w = [3.0] + [1.0] * (len(us) - 2) + [2.0]
+        s3 = [math.fsum(wi * u[i] for wi, u in zip(w, us)) for i in range(3)]
+        n = math.sqrt(s3[0] ** 2 + s3[1] ** 2 + s3[2] ** 2)
+        out.append((s3[0] / n, s3[1] / n, s3[2] / n))
+    return out
+
+
+def fingerprint(g):
+    """Bitwise fingerprint of every variable the grid stores (observation only)."""
+    import hashlib
+
+    import numpy as np
+
+    out = {}
+    for k, v in g._ds.variables.items():
+        a = np.ascontiguousarray(np.asarray(v.values))
+        out[str(k)] = (str(a.dtype), tuple(a.shape), hashlib.sha1(a.tobytes()).hexdigest())
+    return out
+
+
+PARENT_OPS = ["node_faces", "get_dual", "centres", "edges"]
+
+
+def selection(kind, pat, n):
+    if kind == "n_face":
+        keep = {1: lambda i: i % 3 != 0, 2: lambda i: i < 0.6 * n, 3: lambda i: i % 4 != 1}[pat]
+    else:
+        keep = {1: lambda i: i % 5 == 0, 2: lambda i: i < 0.3 * n, 3: lambda i: i % 7 in (0, 3)}[pat]
+    return [i for i in range(n) if keep(i)] or [0]
+
+
+def derive(g, case, lon):
+    """A scenario of DualDerive.tla: read things on the parent, slice it; the derived grid's own tables are the input."""
+    import numpy as np
+
+    from . import ux as hux
+
+    d = case["derive"]
+    for op in PARENT_OPS:
+        if op in d["ops"]:
+            if op == "node_faces":
+                g.node_face_connectivity
+            elif op == "get_dual":
+                g.get_dual()
+            elif op == "centres":
+                g.face_lon
+            elif op == "edges":
+                g.edge_node_connectivity
+    faces = case["faces"]
+    n = {"n_face": len(faces), "n_node": len(lon),
+         "n_edge": len({frozenset((f[i], f[(i + 1) % len(f)])) for f in faces for i in range(len(f))})}[d["kind"]]  # fmt: skip
+    sub = g.isel(**{d["kind"]: selection(d["kind"], d["pat"], n)})
+    rows, _, _ = hux.table(sub.face_node_connectivity)
+    case["faces"] = [[x for x in r if x >= 0] for r in rows]
+    case.pop("nodes", None)
+    case.pop("expect", None)
+    slon = [float(x) for x in np.asarray(sub.node_lon.values)]
+    slat = [float(x) for x in np.asarray(sub.node_lat.values)]
+    case["n_node"] = len(slon)
+    case["lon"], case["lat"] = slon, slat
+    return sub, slon, slat, oracle_centres(case, slon, slat)
+
+
 def match_positions(lons, lats, centres):
     """For each reported position the id of the centre it coincides with (-1 if none), and how many
     were accepted only through the library's pole snap.  Position i is compared with centre i first
@@ -121,7 +192,9 @@ def build_primal(case):
     ux = hux.import_ux()
     _, FILL = hux.consts()
     lon, lat = lonlat_of_case(case)
-    cen = oracle_centres(case, lon, lat)
+    centroid = oracle_centres(case, lon, lat)
+    prov0 = case.get("prov") or {}
+    cen = off_centres(case, lon, lat) if prov0.get("offc") else centroid      # what the source ships
     kw = {}
     mode = case.get("centres", "derived")
     if mode in ("lonlat_only", "both"):
@@ -179,7 +252,8 @@ def build_primal(case):
             g.construct_face_centers()
         elif op == "normalize":
             g.normalize_cartesian_coordinates()
-    return ux, g, lon, lat, cen
+    # where the dual's nodes must be (decided by DualProv.tla): the shipped centres, or the centroid
+    return ux, g, lon, lat, (cen if prov.get("dual_nodes_at", "centroid") == "shipped" else centroid)
 
 
 def open_file_case(case):
@@ -227,6 +301,10 @@ def record_case(case):
             ux, g, lon, lat, cen = open_file_case(case)
         else:
             ux, g, lon, lat, cen = build_primal(case)
+        if "derive" in case:
+            stage = "parent history / isel"
+            g, lon, lat, cen = derive(g, case, lon)
+            stage = "build"
         rec["mesh"] = case["faces"]
         rec["n_node"] = case.get("n_node", len(lon))
         if case.get("check_ccw") and not faces_ccw_float(case, lon, lat):
@@ -237,6 +315,7 @@ def record_case(case):
         for name in PRE_ACCESS[case.get("variant", 0) % len(PRE_ACCESS)]:
             getattr(g, name)
         stage = "Grid.get_dual"
+        before = fingerprint(g)
         try:
             d = g.get_dual()
         except RuntimeError as e:
@@ -244,6 +323,8 @@ def record_case(case):
                 rec["skip"] = "duplicate nodes: outside the property's quantifier"
                 return rec
             raise
+        after = fingerprint(g)
+        rec["primal_changed"] = sorted(k for k in before if after.get(k) != before[k])
         stage = "dual.face_node_connectivity"
         rows, dt, fl = hux.table(d.face_node_connectivity)
         rec["dual"] = rows
@@ -268,6 +349,8 @@ def record_case(case):
             fd = fda.get_dual()
             rec["fdata"] = {"dims": [str(x) for x in fd.dims], "vals": [int(x) for x in np.asarray(fd.values).ravel()], "base": base}
             rec["dual2"] = hux.table(fd.uxgrid.face_node_connectivity)[0]
+            if "file" not in case:
+                rec["pos_da"], _ = match_positions(fd.uxgrid.node_lon.values, fd.uxgrid.node_lat.values, cen)
             stage = "UxDataArray.get_dual (node-centred)"
             nda = ux.UxDataArray(
                 (np.arange(2 * nn, dtype=np.int64) + base).reshape(2, nn), dims=["time", "n_node"], uxgrid=g, name="tracer2"
@@ -318,6 +401,9 @@ def record_case(case):
                         "base": base,
                     }
                     rec["dual4"] = hux.table(dd.uxgrid.face_node_connectivity)[0]
+        if case["closed"] and case.get("data", True):
+            final = fingerprint(g)
+            rec["primal_changed_by_data_routes"] = sorted(k for k in after if final.get(k) != after[k])
     except Exception as e:  # noqa: the property promises a value; the exception is part of the record
         rec["error"] = "%s: %s: %s" % (stage, type(e).__name__, str(e)[:200])
     return rec
